@@ -1,0 +1,15 @@
+//go:build verif
+
+package metrics
+
+// C10 (thin): rotating the datapoint WAL never re-opens (and thereby
+// truncates, wal.NewWAL uses O_TRUNC) the file that holds completed appends:
+// the new file is created under the next index.
+// Checked by /verif/bin/govc.  Comment-only file.
+
+//@ func (*MetricsBlock).rotateWAL
+//@   props C10
+//@   requires mb != nil
+//@   site call mb.initNewDpWal #1:
+//@     assert [new-file-gets-new-index] mb.dpWalState.currentWALIndex == old(mb.dpWalState.currentWALIndex) + 1
+//@ end
